@@ -64,6 +64,10 @@ def coq_project():
 def make(targets, timeout=3000, keep_going=False):
     """Full .vo build of the given targets (never -vos). Returns (ok, log)."""
     coq_project()
+    # the extraction files write ../ocaml/<component>/model.ml: the directories hold generated files only
+    # and are therefore absent from a fresh clone
+    for f in glob.glob(os.path.join(COQ, "Extract", "*.v")):
+        os.makedirs(os.path.join(ROOT, "ocaml", os.path.basename(f)[:-2].lower()), exist_ok=True)
     cmd = ["timeout", str(timeout), "make", "-j", JOBS] + (["-k"] if keep_going else []) + list(targets)
     p = subprocess.run(cmd, cwd=COQ, stdout=subprocess.PIPE, stderr=subprocess.STDOUT)
     return p.returncode == 0, p.stdout.decode(errors="replace")
